@@ -5,7 +5,7 @@ Round trip of hertz's multipart writer (`Model/Multipart.lean`) through the inde
 -/
 namespace Hertz.MultipartRT
 open Hertz Hertz.Multipart
-open Hertz.Spec.Multipart (splitOnce headerLines params lookup parts decode lower)
+open Hertz.Spec.Multipart (splitOnce headerLines params lookup parts decode lower quoted)
 
 /-! ### first occurrence -/
 
@@ -110,8 +110,9 @@ theorem splitOnce_append (D : Bytes) (hD : D ≠ []) (t : Bytes) : ∀ (x a r : 
 
 /-! ### well-formedness of what the application attached -/
 
-/-- no byte that `CreateMultipartHeader` would have to escape -/
-def cleanVal (v : Bytes) : Prop := 34 ∉ v ∧ 13 ∉ v ∧ 10 ∉ v
+/-- no byte that `CreateMultipartHeader` cannot write reversibly (CR / LF become `%0D` / `%0A`; `"` and `\` are escaped
+as quoted pairs and read back, so they are allowed — before `/repo` 865e699 they were not) -/
+def cleanVal (v : Bytes) : Prop := 13 ∉ v ∧ 10 ∉ v
 
 /-- the delimiter of boundary `b` as it appears behind a part's content -/
 def delim (b : Bytes) : Bytes := [13, 10, 45, 45] ++ b
@@ -128,6 +129,77 @@ def intended (p : Part) : Spec.Multipart.Part :=
   { name := p.name, fileName := if blank p.fileName then none else some p.fileName,
     ctype := if p.ctype.isEmpty then none else some p.ctype, content := p.content }
 
+/-! ### the escaped parameter values -/
+
+theorem escapeQ_34 (t : Bytes) : escapeQ (34 :: t) = 92 :: 34 :: escapeQ t := by simp [escapeQ]
+theorem escapeQ_92 (t : Bytes) : escapeQ (92 :: t) = 92 :: 92 :: escapeQ t := by simp [escapeQ]
+theorem escapeQ_other (c : UInt8) (t : Bytes) (h1 : c ≠ 92) (h2 : c ≠ 34) (h3 : c ≠ 13) (h4 : c ≠ 10) :
+    escapeQ (c :: t) = c :: escapeQ t := by simp [escapeQ, h1, h2, h3, h4]
+theorem quoted_92 (d : UInt8) (t : Bytes) : quoted (92 :: d :: t) = (quoted t).map (fun (v, r) => (d :: v, r)) := by
+  simp [quoted]
+theorem quoted_other (c d : UInt8) (t : Bytes) (h1 : c ≠ 92) (h2 : c ≠ 34) :
+    quoted (c :: d :: t) = (quoted (d :: t)).map (fun (v, r) => (c :: v, r)) := by
+  simp [quoted, h1, h2]
+theorem quoted_34 (t : Bytes) : quoted (34 :: t) = some ([], t) := by
+  cases t <;> simp [quoted]
+
+/-- the strict quoted-string reader undoes `escapeQuotes` on every value without CR / LF, whatever follows the closing quote -/
+theorem quoted_escapeQ : ∀ (v rest : Bytes), cleanVal v → quoted (escapeQ v ++ 34 :: rest) = some (v, rest)
+  | [], rest, _ => by simp [escapeQ, quoted_34]
+  | c :: t, rest, h => by
+    have ht : cleanVal t := ⟨fun m => h.1 (List.mem_cons_of_mem _ m), fun m => h.2 (List.mem_cons_of_mem _ m)⟩
+    have ih := quoted_escapeQ t rest ht
+    have h13 : c ≠ 13 := fun e => h.1 (by simp [e])
+    have h10 : c ≠ 10 := fun e => h.2 (by simp [e])
+    by_cases h92 : c = 92
+    · subst h92
+      rw [escapeQ_92, List.cons_append, List.cons_append, quoted_92, ih]; rfl
+    · by_cases h34 : c = 34
+      · subst h34
+        rw [escapeQ_34, List.cons_append, List.cons_append, quoted_92, ih]; rfl
+      · rw [escapeQ_other c t h92 h34 h13 h10, List.cons_append]
+        cases he : escapeQ t ++ 34 :: rest with
+        | nil => simp at he
+        | cons d u =>
+          rw [he] at ih
+          rw [quoted_other c d u h92 h34, ih]; rfl
+
+theorem notin_escapeQ (x : UInt8) (hx : x = 13 ∨ x = 10 ∨ x = 34 ∧ False) : ∀ v : Bytes, x ∉ escapeQ v
+  | [] => by simp [escapeQ]
+  | c :: t => by
+    have ih := notin_escapeQ x hx t
+    simp only [escapeQ, List.mem_append, not_or]
+    refine ⟨?_, ih⟩
+    rcases hx with rfl | rfl | ⟨_, hf⟩
+    · split
+      · decide
+      · split
+        · decide
+        · split
+          · decide
+          · split
+            · decide
+            · rename_i h13 _; simp; exact fun e => h13 e.symm
+    · split
+      · decide
+      · split
+        · decide
+        · split
+          · decide
+          · split
+            · decide
+            · rename_i h10; simp; exact fun e => h10 e.symm
+    · exact absurd hf id
+
+theorem cleanCT_clean (v : Bytes) (h : 13 ∉ v ∧ 10 ∉ v) : cleanCT v = v := by
+  unfold cleanCT
+  conv => rhs; rw [← List.map_id v]
+  apply List.map_congr_left
+  intro c hc
+  have h1 : c ≠ 13 := fun e => h.1 (e ▸ hc)
+  have h2 : c ≠ 10 := fun e => h.2 (e ▸ hc)
+  simp [h1, h2]
+
 /-! ### one part head -/
 
 theorem params_disposition (p : Part) (hn : cleanVal p.name) (hf : cleanVal p.fileName) (fuel : Nat) :
@@ -135,15 +207,15 @@ theorem params_disposition (p : Part) (hn : cleanVal p.name) (hf : cleanVal p.fi
       some ((Spec.Multipart.sName, p.name) ::
         (if blank p.fileName then [] else [(Spec.Multipart.sFileName, p.fileName)])) := by
   have hd : (disposition p).drop Spec.Multipart.sFormData.length =
-      59 :: 32 :: ([110, 97, 109, 101] ++ [61, 34] ++ (p.name ++ [34] ++ (if blank p.fileName then [] else
-        59 :: 32 :: ([102, 105, 108, 101, 110, 97, 109, 101] ++ [61, 34] ++ (p.fileName ++ [34] ++ []))))) := by
+      59 :: 32 :: ([110, 97, 109, 101] ++ [61, 34] ++ (escapeQ p.name ++ 34 :: (if blank p.fileName then [] else
+        59 :: 32 :: ([102, 105, 108, 101, 110, 97, 109, 101] ++ [61, 34] ++ (escapeQ p.fileName ++ 34 :: []))))) := by
     unfold disposition sDisp sFile Spec.Multipart.sFormData
     split <;> simp
   rw [hd, params]
   simp only
   rw [splitOnce_first_byte 61 [34] _ [110, 97, 109, 101] (by decide)]
   simp only [bind, Option.bind]
-  rw [splitOnce_first_byte 34 [] _ p.name hn.1]
+  rw [quoted_escapeQ p.name _ hn]
   simp only
   split
   · simp [params, Spec.Multipart.sName]
@@ -151,7 +223,7 @@ theorem params_disposition (p : Part) (hn : cleanVal p.name) (hf : cleanVal p.fi
     simp only
     rw [splitOnce_first_byte 61 [34] _ [102, 105, 108, 101, 110, 97, 109, 101] (by decide)]
     simp only [bind, Option.bind]
-    rw [splitOnce_first_byte 34 [] _ p.fileName hf.1]
+    rw [quoted_escapeQ p.fileName _ hf]
     simp [params, Spec.Multipart.sName, Spec.Multipart.sFileName]
 
 /-- `Content-Disposition` / `Content-Type` without the colon -/
@@ -162,7 +234,7 @@ theorem sCD_eq : sCD = cdName ++ [58] ++ [32] := by decide
 theorem sCT_eq : sCT = ctName ++ [58] ++ [32] := by decide
 
 theorem notin_disposition (x : UInt8) (p : Part) (hc : x ∉ sDisp ∧ x ∉ sFile ∧ x ≠ 34)
-    (hn : x ∉ p.name) (hf : x ∉ p.fileName) : x ∉ disposition p := by
+    (hn : x ∉ escapeQ p.name) (hf : x ∉ escapeQ p.fileName) : x ∉ disposition p := by
   unfold disposition
   split <;> simp [hc.1, hc.2.1, hc.2.2, hn, hf, List.mem_append] <;> exact fun h => hc.2.2 h.symm
 
@@ -183,13 +255,13 @@ theorem headerLines_end (fuel : Nat) (X : Bytes) : headerLines (fuel + 1) (13 ::
 theorem headerLines_partHead (b : Bytes) (p : Part) (hc : Clean b p) (fuel : Nat) (X : Bytes) :
     headerLines (fuel + 3) (partHead p ++ X) = some (hdrs p, X) := by
   have h13 : (13 : UInt8) ∉ cdName ++ [58] ++ [32] ++ disposition p := by
-    have := notin_disposition 13 p (by decide) hc.name.2.1 hc.file.2.1
+    have := notin_disposition 13 p (by decide) (notin_escapeQ 13 (Or.inl rfl) _) (notin_escapeQ 13 (Or.inl rfl) _)
     simp only [List.mem_append, not_or]
     exact ⟨⟨⟨by decide, by decide⟩, by decide⟩, this⟩
   -- first line
   have hw : partHead p ++ X = (cdName ++ [58] ++ [32] ++ disposition p) ++ [13, 10] ++
       ((if p.ctype.isEmpty then [] else sCT ++ p.ctype ++ crlf) ++ crlf ++ X) := by
-    unfold partHead crlf; rw [sCD_eq]; simp
+    unfold partHead crlf; rw [sCD_eq, cleanCT_clean p.ctype ⟨hc.ctype.1, hc.ctype.2.1⟩]; simp
   rw [hw, headerLines, splitOnce_first_byte 13 [10] _ _ h13]
   simp only [bind, Option.bind]
   have hne : (cdName ++ [58] ++ [32] ++ disposition p).isEmpty = false := by simp [cdName]
